@@ -27,7 +27,7 @@ Clauses of the property:
 The accounted bytes (device.memoryAllocated) are part of the model and of the differential run but no
 theorem is stated about them here (C05).
 -/
-import OccaProofs.Lemmas.GcFinal
+import OccaProofs.Lemmas.GcUse
 import OccaProofs.Lemmas.GcRing
 
 namespace Occa.Gc.C01
@@ -151,6 +151,52 @@ theorem C01_no_leak (ops : List Op) (vs : List (HKind × Nat))
     · simp
     · simp [hvs k i hl]
   exact ⟨hv, fun hu => no_leak_core (run_inv (ops ++ dropAll vs)) hv hu⟩
+
+/-- (f) in particular: a history that never calls `dontUseRefs`, followed by the destruction of all
+    variables, leaves no backend object alive -/
+theorem C01_no_leak_without_dontUseRefs (ops : List Op) (vs : List (HKind × Nat))
+    (hn : ∀ op ∈ ops, op.isNorefs = false)
+    (hvs : ∀ k i, (run ops).vlive (.user k i) = true → (k, i) ∈ vs) :
+    ∀ o, (run (ops ++ dropAll vs)).alive o = false := by
+  apply (C01_no_leak ops vs hvs).2
+  intro o _
+  have : AllRefs (run (ops ++ dropAll vs)) := by
+    rw [run_eq]
+    apply runFrom_allRefs init_allRefs
+    intro op hop
+    rcases List.mem_append.mp hop with h | h
+    · exact hn op h
+    · unfold dropAll at h
+      obtain ⟨v, _, hv⟩ := List.mem_map.mp h
+      rw [← hv]; rfl
+  exact this o
+
+/-! ### why the two repairs are needed: the unrepaired code violates the property in the model -/
+
+/-- the unrepaired `memory::swap` / `memoryPool::swap`: exchange of the two raw pointers only -/
+def swapRaw (s : St) (a b : Var) : St := (s.setPtr a (s.ptr b)).setPtr b (s.ptr a)
+
+/-- F01: after a pointer-only swap the handles are entries of the wrong rings — the invariant is gone
+    (concrete witness: one device, one memory, an uninitialised second handle) -/
+theorem C01_unrepaired_swap_fails :
+    ∃ ops a b, Inv (run ops) ∧ ¬ InvX E (swapRaw (run ops) a b) := by
+  refine ⟨[.ctor .dev 0, .mkdev 0, .ctor .mem 0, .ctor .mem 1, .malloc 0 0 16], .user .mem 0, .user .mem 1,
+    run_inv _, ?_⟩
+  intro h
+  have hp : (swapRaw (run [.ctor .dev 0, .mkdev 0, .ctor .mem 0, .ctor .mem 1, .malloc 0 0 16])
+      (.user .mem 0) (.user .mem 1)).ptr (.user .mem 1) = some 3 := by decide
+  have := (h.ptr_ok _ _ hp (fun x => x)).2.2
+  revert this
+  decide
+
+/-- F02: if the inner buffer of a pool is also an entry of the device's ring of buffers (as before the
+    repair) and some other buffer was allocated before the pool, `device.free()` reaches the inner
+    buffer before its pool and destroys it twice: the model traps -/
+theorem C01_unrepaired_pool_buffer_fails :
+    ∃ ops d p i, Inv (run ops) ∧ (run ops).inner p = some i ∧
+      (deleteDev ((run ops).chSet .buf d (Ring.add ((run ops).chGet .buf d) i)) d).trap = true := by
+  refine ⟨[.ctor .dev 0, .mkdev 0, .ctor .mem 1, .malloc 1 0 8, .ctor .pool 0, .mkpool 0 0, .ctor .mem 0,
+    .reserve 0 0 16], 0, 4, 5, run_inv _, by decide, by decide⟩
 
 /-! ### (g) the intrusive ring of gc.tpp refines the lists of the handle model
 
